@@ -83,6 +83,13 @@ DSq(a) == DMul(a, a)
 DTwo(a) == DShift(a, 1)
 DHalf(a) == DShift(a, -1)
 DOne == DInt(1)
+\* truncate the mantissa to its top 9 limbs (>= 113 significant bits): |DTrunc(a) - a| < 2^-112 |a|.
+\* Used only inside high-degree polynomial terms, where exact products would grow to
+\* thousands of bits; the laws that consume them have tolerances of 2^-26 .. 2^-50.
+DTrunc(a) == IF IsFin(a) /\ Len(a.m) > 9
+             THEN Fin(a.s, a.e + 14 * (Len(a.m) - 9), SubSeq(a.m, Len(a.m) - 8, Len(a.m)))
+             ELSE a
+TMul(a, b) == DTrunc(DMul(a, b))
 DMax(a, b) == IF DLe(a, b) THEN b ELSE a
 RECURSIVE DSumSeq(_)
 DSumSeq(s) == IF s = <<>> THEN DZero ELSE DAdd(s[1], DSumSeq(Tail(s)))
